@@ -78,6 +78,28 @@ structure Route where
 structure CookieOpts where
   Name : Str
   CSRFPerRequest : Bool
+  Domains : List Str := []
+  Path : Str := []
+  HTTPOnly : Bool := false
+  Secure : Bool := false
+  SameSite : Str := []
+
+/-- `http.Cookie` as `MakeCookieFromOptions` builds it (`SameSite`: 0 unset, 2 Lax, 3 Strict, 4 None;
+    `MaxAge`: 0 = attribute absent, < 0 = delete now) -/
+structure HttpCookie where
+  Name : Str := []
+  Value : Str := []
+  Path : Str := []
+  Domain : Str := []
+  HttpOnly : Bool := false
+  Secure : Bool := false
+  SameSite : Int := 0
+  MaxAge : Int := 0
+  deriving DecidableEq
+
+/-- `int(d.Seconds())`: whole seconds, truncated toward zero (`Seconds()` is a float64; exact for
+    |d| < 2⁵³ ns ≈ 104 days … and the quotient is the same far beyond: stated, not proved) -/
+def durationSecondsInt (d : Int) : Int := Int.tdiv d 1000000000
 
 /-- `net.SplitHostPort` -/
 def netSplitHostPort (E : Ext) (hp : Str) : Str × Str × Err :=
